@@ -17,7 +17,7 @@ class C07(Prop):
     diverge_is_violation = True
     level_text = ("Theorems for every layout and every start: under the line geometry (l complete lines of b bytes / r residues before the target line) seeking to doff + l*b [+ (start-1)%r] and skipping start - actual_start residues delivers the record's residues from residue `start` on, in the residue, line and brute-force addressing cases; "
                   "esl_ssi_FindSubseq's three cases are exactly that arithmetic; absent key => eslENOTFOUND, start outside 1..L => eslERANGE, for every file and index; the tracker's guarantee (every line followed by another terminated line has rpl residues) and two decide-checked counter-examples showing it does NOT bound last lines. "
-                  "The executable model of PositionByKey/ByNumber/Fetch/FetchInfo/FetchSubseq/read_nres is tied to the working tree by an exact differential run against a real SSI index built by esl-sfetch's create_ssi_index, all (key,start,end) on small files, and a fetch = slice-of-sequential-scan monitor (incl. esl-sfetch's own whole-record path = PositionByKey + Read + esl_sqio_Echo, and its subsequence path with reverse complement; Echo'd bytes = bytes roff..eoff of the file).")
+                  "The executable model of PositionByKey/ByNumber/Fetch/FetchInfo/FetchSubseq/read_nres is tied to the working tree by an exact differential run against a real SSI index built by esl-sfetch's create_ssi_index, all (key,start,end) on small files, and a fetch = slice-of-sequential-scan monitor (incl. esl-sfetch's own whole-record path = PositionByKey + Read + esl_sqio_Echo, its subsequence path with reverse complement, and its key-file / GDF-file loops (-f, -Cf); Echo'd bytes = bytes roff..eoff of the file).")
     level_note = ("FetchSubseq = slice of the scan is established by the differential run + monitor, not by a theorem about the whole reader. FASTA, EMBL/UniProt, GenBank/DDBJ (accessions as aliases); esl-afetch / Stockholm databases (1..20 quick, ..50 thorough alignments, names + accessions, prefix names) are covered by the harness + monitor only (real index built by esl-afetch's create_ssi_index, fetched entry = the entry of that name/accession, absent key => eslENOTFOUND), no model; the SSI file itself is C06. "
                   "Known finding (genuine defect, repair not small): seebuf's bpl/rpl tracker accepts a last/only line longer than rpl, FetchSubseq then returns other residues with eslOK - witnesses in known_findings.d/C07.json, theorem carried as bplrpl_sound_partial + bplrpl_unsound_*.")
     assumptions = ["the SSI index returns what create_ssi_index stored (C06)", "fread returns min(B, remaining) bytes; allocation never fails",
@@ -132,6 +132,22 @@ class C07(Prop):
                 if r.get("acc"):
                     ka = hx(r["acc"].encode())
                     ops += ["fetch key=%s" % ka, "fetchsub key=%s s=1 e=%d" % (ka, min(5, len(r["seq"]))), "poskey key=%s" % ka, "readinfo"]
+            if abc == "text" and clean and rng.random() < 0.5:
+                # esl-sfetch -f <keyfile> and -Cf <gdffile>: the tool's own loops, comment and blank lines included
+                pick = rng.sample(recs, min(len(recs), rng.choice([1, 2, 3])))
+                ktxt = "# keys\n" + "".join(("%s\n" if rng.random() < 0.8 else " %s \t\n\n") % r["name"] for r in pick)
+                ops.append("toolmulti text=" + hx(ktxt.encode("latin-1")))
+                lines = ["# newname from to source"]
+                for j, r in enumerate(pick):
+                    L = len(r["seq"])
+                    if L == 0:
+                        continue
+                    a_, b_ = rng.randrange(1, L + 1), rng.randrange(1, L + 1)
+                    if kind == "amino" and a_ > b_:
+                        a_, b_ = b_, a_
+                    lines.append("%s%s%d %d\t%s" % (rng.choice(["new%d" % j, "n" * 31 + str(j), "x/1-2"]), rng.choice([" ", "\t", "  "]), a_, b_ if rng.random() < 0.85 or a_ > b_ else 0, r["name"]))
+                if len(lines) > 1:
+                    ops.append("toolmultisub text=" + hx(("\n".join(lines) + "\n").encode("latin-1")))
             ops += ["posnum n=%d" % rng.randrange(0, len(recs)), "read", "posnum n=%d" % len(recs)]
             for nm in ("", "nope", recs[0]["name"] + "x", recs[0]["name"][:-1] if len(recs[0]["name"]) > 1 else "q"):
                 if nm not in [r["name"] for r in recs]:
@@ -140,7 +156,7 @@ class C07(Prop):
             out.append({"name": "gen%d" % c, "ops": ops, "sticky": 1, "meta": {"kind": kind, "geom": meta["geom"]}})
         for c in range(40 if ctx.tier == "quick" else 600):
             out.append(S.afetch_case(rng, ctx.tier, c))
-        return out
+        return S.record_distribution(ctx, out)
 
     def nontrivial(self, case, out):
         return any((l.startswith("ok name=") and op.startswith(("fetchsub", "fetch "))) or l.startswith("ok nali=") for op, l in zip(case["ops"], out))
